@@ -846,3 +846,28 @@ def shared_flags(ctx: Ctx) -> None:
     from . import C05 as _c05
     from .common import support
     support(ctx, [_c05.r4], {"parse_yaml_rectangles", "Netlist.assign_rectangles"})
+
+
+@rule("C01", "R11.no-exact-geometric-rejection", "WHO-MAY-REJECT",
+      "a valid description is never rejected for round-off: the only geometric judgement on the regions of a die is the "
+      "tolerance-aware self-check (R2 / R7); the die reader and the Die class do not assert or branch on the exact, "
+      "tolerance-free containment predicate Rectangle.is_inside (centre +/- half-size of a region flush with the border "
+      "rounds past it: 0.2 + 0.1 > 0.3) -- seeded change C01-9", floor=1)
+def r11_no_exact_rejection(ctx: Ctx) -> None:
+    EXACT = {"is_inside"}
+    n = 0
+    for f in ctx.model.all_functions(include_inlined=True):
+        if f.module.relpath not in (PARSE_DIE, DIE):
+            continue
+        for st in walk_own(f.node):
+            test = st.test if isinstance(st, (ast.Assert, ast.If, ast.While, ast.IfExp)) else None
+            if test is None:
+                continue
+            n += 1
+            for c in ast.walk(test):
+                if isinstance(c, ast.Call) and isinstance(c.func, ast.Attribute) and c.func.attr in EXACT:
+                    ctx.report(f.where, f"exact-containment {norm_stmt(c)[:50]}", f"{f.qualname} judges a region with the tolerance-free predicate "
+                               f"'{ast.unparse(c)[:60]}': a valid region flush with the border of the die is rejected when centre + half-size rounds "
+                               "past it", lineno=c.lineno)
+    ctx.site(f"{PARSE_DIE}::parse_yaml_die", "tests of the die reader and the Die class use no tolerance-free containment predicate", tests=n)
+    ctx.require(n >= 10, f"tests in the die reader / Die class fewer than confirmed ({n})")
